@@ -42,7 +42,9 @@ def inline(rng: random.Random, depth=0, hazards=True) -> str:
         return rng.choice(["`code`", "`a b`", "``x ` y``", "`` ` ``", "`it's \"q\"...`", "`|`"])
     if r < 0.75 and depth < 2:
         t = inline_seq(rng, rng.randint(1, 2), depth + 1, hazards=False)
-        return rng.choice([f"[{t}](http://ex.com/a_b)", f"[{t}](/u \"Title\")", f"[{t}](<u v> 'T t')", f"[{t}][ref]", "[ref]", f"[{t}](u \"a \\\"b\\\" c\")"])
+        return rng.choice([f"[{t}](http://ex.com/a_b)", f"[{t}](/u \"Title\")", f"[{t}](<u v> 'T t')", f"[{t}][ref]", "[ref]", f"[{t}](u \"a \\\"b\\\" c\")",
+                           # same destination as a definition the generator may emit, with the same, another or no title
+                           f"[{t}](http://ex.com/ref)", f"[{t}](http://ex.com/ref \"Other\")", f"[{t}](/u)", f"[{t}](/u \"Other title\")"])
     if r < 0.77:
         if depth > 0 and "nested_bracket_links" in AVOID:
             return w()
